@@ -101,9 +101,13 @@ func VerifC16_TextOut() {
 	now := vrtCmdInstant(h, "now")
 	vrtCmdAssumeClock(h, now)
 	vrt.SetClock(uint32(now))
-	sbase, dbase := vrtC16Tree(now, h, true)
+	sbase, dbase := vrtC16TreeX(now, h, true, vrt.Tier() == 1)
 	cmdID := vrt.Choose("cmd", 8)
 	bad := vrt.NoDir("out.txt")
+	if vrt.Choose("fault", 2) == 1 {
+		// opens fine, every write fails (ENOSPC): the failure surfaces when the buffer is flushed
+		bad = "/dev/full"
+	}
 	vrt.Reach("pre")
 	var err error
 	if cmdID == 7 {
@@ -112,7 +116,7 @@ func VerifC16_TextOut() {
 	} else {
 		err = vrtC16Run(cmdID, sbase, dbase, h, ArchiveIDAll, 0, bad)
 	}
-	vrt.Assert(err != nil, "C16 an unopenable text-out path is reported as an error, not as success")
+	vrt.Assert(err != nil, "C16 an unopenable or unwritable text-out path is reported as an error, not as success")
 }
 
 // VerifC16_Missing: a missing input is never reported as plain success.
